@@ -35,6 +35,7 @@ type lexSeq struct {
 type lexVal struct {
 	konst ast.Expr // an element of a constant table
 	seq   *lexSeq  // an element of an abstract sequence
+	index bool     // bound to a counted loop's index: `X[i]` denotes the element
 }
 
 type lexEv struct {
@@ -171,7 +172,30 @@ func (ev *lexEv) stmt(s ast.Stmt, env map[types.Object]lexVal) {
 		if !pure {
 			ev.badf(x, "the rule list is written in a form the evaluator does not know")
 		}
-	case *ast.ForStmt, *ast.SwitchStmt, *ast.TypeSwitchStmt, *ast.SelectStmt, *ast.GoStmt, *ast.DeferStmt, *ast.LabeledStmt:
+	case *ast.ForStmt:
+		if !ev.mayRegister(x.Body) {
+			return
+		}
+		// `for i := 0; i < len(X); i++ { .. X[i] .. }` (or with n := len(X)) is the range loop over X
+		ls := c.absLoops(x, ev.defs)
+		if len(ls) == 0 || ls[0].stmt != ast.Stmt(x) || ls[0].seq == nil || ls[0].idx == nil || ls[0].start != nil {
+			ev.badf(x, "rules are registered inside a loop that is not a plain walk over one sequence")
+			return
+		}
+		elems, seq := ev.seqOf(ls[0].seq, env, 0)
+		if elems != nil {
+			for _, el := range elems {
+				e2 := copyEnv(env)
+				e2[ls[0].idx] = lexVal{konst: el, index: true}
+				ev.stmts(x.Body.List, e2)
+			}
+			return
+		}
+		seq.stmt = x
+		e2 := copyEnv(env)
+		e2[ls[0].idx] = lexVal{seq: seq, index: true}
+		ev.stmts(x.Body.List, e2)
+	case *ast.SwitchStmt, *ast.TypeSwitchStmt, *ast.SelectStmt, *ast.GoStmt, *ast.DeferStmt, *ast.LabeledStmt:
 		if ev.mayRegister(x) {
 			ev.badf(x, "rules are registered inside a statement form the evaluator does not execute")
 		}
@@ -323,6 +347,46 @@ func (ev *lexEv) kindOf(e ast.Expr, env map[types.Object]lexVal) (string, *lexSe
 		return s, nil
 	}
 	e = unparen(e)
+	// X[i] with i a counted loop's index stands for the element
+	elemOf := func(x ast.Expr) (lexVal, bool) {
+		switch y := unparen(x).(type) {
+		case *ast.Ident:
+			v, ok := env[c.objOf(y)]
+			return v, ok && !v.index
+		case *ast.IndexExpr:
+			if id, ok := unparen(y.Index).(*ast.Ident); ok {
+				v, ok := env[c.objOf(id)]
+				return v, ok && v.index
+			}
+		}
+		return lexVal{}, false
+	}
+	if ie, ok := e.(*ast.IndexExpr); ok {
+		if v, ok := elemOf(ie); ok {
+			if v.konst != nil {
+				if s, ok := c.constStr(v.konst); ok {
+					return s, nil
+				}
+				return "", nil
+			}
+			return "", v.seq
+		}
+	}
+	if se, ok := e.(*ast.SelectorExpr); ok {
+		if _, isIdx := unparen(se.X).(*ast.IndexExpr); isIdx {
+			if v, ok := elemOf(se.X); ok {
+				if v.konst != nil {
+					if f := c.fieldOfLit(v.konst, se); f != nil {
+						if s, ok := c.constStr(f); ok {
+							return s, nil
+						}
+					}
+					return "", nil
+				}
+				return "", v.seq
+			}
+		}
+	}
 	switch x := e.(type) {
 	case *ast.Ident:
 		if v, ok := env[c.objOf(x)]; ok {
